@@ -220,7 +220,7 @@ def main():
         ],
         "checks": checks,
         "not_applicable": na,
-        "notes": "All checks are generated-input search (proptest, fixed seed from VERIF_SEED) against explicit oracles; the thorough tier adds a coverage-guided libFuzzer stage over the same strategies, drivers and oracles (harness/fuzz, not for C13); exit 0 held / 1 VIOLATION / 2 infrastructure. Known findings: KNOWN_FINDINGS.txt.",
+        "notes": "All checks are generated-input search (proptest, fixed seed from VERIF_SEED) against explicit oracles; the thorough tier first repeats the quick-size search against a10 built with debug assertions and overflow checks (flavour D, cargo profile 'checked') and afterwards adds a coverage-guided libFuzzer stage over the same strategies, drivers and oracles (harness/fuzz) (both not for C13); exit 0 held / 1 VIOLATION / 2 infrastructure. Known findings: KNOWN_FINDINGS.txt.",
     }
     with open(os.path.join(ROOT, "MANIFEST.json"), "w") as f:
         json.dump(manifest, f, indent=1)
